@@ -136,6 +136,11 @@ def evaluate(case):
         for f in fails:
             res.fail(*f)
         return res
+    if "large_file" in case:
+        _, fails = _large_one(tuple(case["large_file"]))
+        for f in fails:
+            res.fail(*f)
+        return res
     if "splice" in case:
         text = "".join(a + b for a, b in zip(case["splice"], case["seps"]))
         want = []
@@ -400,7 +405,38 @@ def splice_campaign(ctx, files):
     ctx.note("corpus_commands_indexed", len(index))
 
 
+def _large_one(variant):
+    """Files larger than 64 KiB whose multi-byte characters straddle every possible block boundary phase."""
+    import vlib
+    vlib.use_repo_source()
+    filler, off = variant
+    text = ("function(cmd_a)\nendfunction()\n#" + "x" * off + filler * 36000 + "\n#[[[\n# Large file doc.\n#]]\n"
+            f'cmd_a(a{off} "{filler * 3} b" [[c]] ({filler}))\n')
+    run = document_text(text, real_settings(), name=f"large-{os.getpid()}.cmake")
+    fails = []
+    if run.exc is not None:
+        fails.append(("large-file:" + exc_key(run.exc), f"{len(text.encode('utf-8'))} bytes, filler {filler!r} offset {off}: {run.exc!r}"[:300]))
+    else:
+        docs = [d for d in (run.documented or []) if type(d).__name__ == "GenericCommandDocumentation"]
+        want = [f"a{off}", f'"{filler * 3} b"', "[[c]]", f"({filler})"]
+        if len(docs) != 1 or list(docs[0].params) != want:
+            fails.append(("large-file:arguments", f"expected {want!r} got {[list(d.params) for d in docs]!r}"[:300]))
+    return variant, fails
+
+
+def large_file_campaign(ctx):
+    variants = [("é", 0), ("é", 1), ("漢", 0), ("漢", 1), ("漢", 2), ("𝔘", 0), ("𝔘", 1), ("𝔘", 3)]
+    with multiprocessing.Pool(8) as pool:
+        for variant, fails in pool.map(_large_one, variants):
+            r = Result(nontrivial=True)
+            r.labels.append("large-file>64KiB")
+            for f in fails:
+                r.fail(*f)
+            ctx.record({"large_file": list(variant)}, r)
+
+
 def extra(ctx):
+    large_file_campaign(ctx)
     files = corpus_files()
     if not files:
         ctx.note("corpus_files", 0)
